@@ -132,7 +132,7 @@ PROPS = {
         "assumptions": ["decision points exist only at (rewritten) lock operations and file-system calls; code between two such points is atomic to the scheduler"],
     },
     "C13": {
-        "level": "exploration", "quick": 8000, "thorough": 200000, "batch": 5, "single_timeout": 150, "race": True, "race_div": 40, "race_free": True, "race_free_gomaxprocs": 4,
+        "level": "exploration", "quick": 8000, "thorough": 200000, "batch": 5, "single_timeout": 150, "race": True, "race_div": 20, "race_free": True, "race_free_gomaxprocs": 4,
         "rule": ("2-4 client tasks (reinforce one shared node, merge distinct metadata keys into it, KV set/get/delete with unique values on 3 keys, "
                  "add/delete own vectors, link/unlink, search, get), an admin task (SaveSnapshot, RewriteAOF, vacuum, refine, compress, index drop/"
                  "create on a second index), an event subscriber with buffer 0-2 that never reads (half of the runs), a task that calls Close (once or "
